@@ -119,6 +119,16 @@ prop("C19", "errors keep their cause and their retry handle", "exploration",
      assumptions=["error types outside the stated domain (pointer-to-non-struct errors, uncomparable value errors) are not generated",
                   "nodes hidden behind an opaque layer or reachable only via the reflection fallback are not asserted either way"])
 
+prop("C13", "keep-alive detects a silent peer and only a silent peer", "fault_enumeration",
+     "part 1: KeepAlive against a scripted Client: generated interval / timeout, 0..6 answered pings (with delays) followed by "
+     "nothing / a ping never answered / a ping failing at once, and a parent-context cancel placed before, during or after a "
+     "generated ping; oracle = reference classification of the return value (cancel > timeout > ping error), exact ping count, "
+     "ticks never early, an unanswered ping is not given up before the timeout, and KeepAlive is still pinging after an "
+     "all-answered script. Non-trivial = >= 3 pings before the end or a cancel during a blocked ping; distinct = FNV-64 of the case.",
+     [dict(tests="^TestVerifC13_KeepAlive$", checks_quick=1200, checks_thorough=8000, shards=12)],
+     assumptions=["the scripted Client decides the outcome of each ping, so machine load cannot turn 'answered' into 'late'",
+                  "timers and tickers never fire early (monotonic clock)"])
+
 # ---------------------------------------------------------------------------------------------
 # texts for MANIFEST.json (tools/gen_manifest.py)
 
@@ -185,3 +195,10 @@ mtext("C19", "pure chains + E5 scripted peer",
       "Generated chains and interruption sequences; membership oracle is exact for reachable and absent targets. Sampling, no completeness.",
       "fresh clients are independent in-memory transports",
       "DESIGN.md section 4 / C19")
+
+mtext("C13", "scripted Client mock (part 1) + E4 broker model going silent (part 2)",
+      "rapid property tests over sequences of ping outcomes / silence points, oracle = reference classification + lower-bound timing invariants",
+      "Generated outcome sequences and cancel placements are checked against a reference classification; all timing assertions are "
+      "lower bounds on a monotonic clock, so load cannot cause a false alarm. Sampling of the schedule space.",
+      "mock Client mimics BaseClient.Ping's error wrapping for a finished context",
+      "DESIGN.md section 4 / C13")
